@@ -73,6 +73,8 @@ struct Scenario {
 	int chunk_all = 0;       // > 0: every read() on a connection returns at most this many bytes
 	int junk_all = -1;       // >= 0: after a short read the unused tail of the caller's buffer is overwritten with pattern #junk_all
 	int early_prefix = 0;    // != 0: a prefix of the next step's message (other connection) already arrives during the current step
+	int fail_alloc = -1;     // >= 0: the allocation with this index (counted from the idle baseline) fails
+	std::vector<int> fail_allocs; // further failing allocation indices (multi-fault runs)
 	std::vector<std::vector<int>> variants; // C09: alternative schedules {dribble, chunk_all, junk_all, early_prefix} that must give identical output
 	int dribble = 0;         // != 0: in single-operation steps every delivery is split in two arrivals (second after the daemon went idle)
 };
@@ -152,6 +154,8 @@ inline js::Value to_json(const Scenario &sc)
 	o.set("order_seed", js::Value::num(sc.order_seed));
 	if (sc.local_flag) o.set("local_flag", js::Value::boolean(true));
 	if (sc.dribble) o.set("dribble", js::Value::num(sc.dribble));
+	if (sc.fail_alloc >= 0) o.set("fail_alloc", js::Value::num(sc.fail_alloc));
+	if (!sc.fail_allocs.empty()) { js::Value a = js::Value::arr(); for (int x : sc.fail_allocs) a.push(js::Value::num(x)); o.set("fail_allocs", a); }
 	if (sc.chunk_all) o.set("chunk_all", js::Value::num(sc.chunk_all));
 	if (sc.junk_all >= 0) o.set("junk_all", js::Value::num(sc.junk_all));
 	if (sc.early_prefix) o.set("early_prefix", js::Value::num(sc.early_prefix));
@@ -180,6 +184,8 @@ inline bool from_json(const js::Value &o, Scenario &sc)
 	sc.order_seed = geti(o, "order_seed");
 	if (auto *v = o.get("local_flag")) sc.local_flag = v->b;
 	sc.dribble = geti(o, "dribble");
+	sc.fail_alloc = geti(o, "fail_alloc", -1);
+	if (auto *fa = o.get("fail_allocs")) for (auto &e : fa->a) sc.fail_allocs.push_back((int)e.d);
 	sc.chunk_all = geti(o, "chunk_all"); sc.junk_all = geti(o, "junk_all", -1); sc.early_prefix = geti(o, "early_prefix");
 	if (auto *vs = o.get("variants")) for (auto &v : vs->a) { std::vector<int> x; for (auto &e : v.a) x.push_back((int)e.d); sc.variants.push_back(x); }
 	auto *ops = o.get("ops");
